@@ -15,6 +15,11 @@ With s the start position and RUN the maximal run of consecutive entries from s 
     remIoVals       deletes exactly RUN -- NO ENTRY OF ANOTHER KEY IS EVER DELETED -- and returns whether RUN is non-empty
     addIoVal        writes exactly one entry: the value at SUF(key, UION(last entry of RUN) + 1), or at SUF(key, 0) for an empty RUN
     putIoVals       writes the <= 2 given values in order at consecutive ordinals from there; both delete nothing
+    pinIoVals       first remIoVals (its own contract) for the same sub-database, key and separator, then the values at ordinals 0, 1, ..
+    remIoSetVal     deletes the FIRST entry of RUN whose value is the given one, and nothing else; True iff it deleted
+    addIoSetVal / putIoSetVals / pinIoSetVals   as the list versions, but only values RUN does not hold yet, each once, in order,
+                    never overwriting (pin: after remIoVals, the values without repeats); ordered_set.OrderedSet is modelled as a
+                    list of pairwise different values (membership by symbolic equality)
 so an operation on one key never changes what another key returns (the statement's second sentence), for any keys.
 """
 import z3
@@ -63,9 +68,7 @@ class Cursor:
         return (self.s.K[self.p], self.s.V[self.p]) if self._live() else (b"", b"")
 
     def m_iternext(self, ctx, r, a, k):
-        keys_only = conc(k.get("values", True)) is False
-        items = [(self.s.K[i] if keys_only else (self.s.K[i], self.s.V[i])) for i in range(self.p, len(self.s.K))] if self._live() else []
-        return ctx.alloc("list", init={"v": items})
+        return ctx.alloc("ext", init={"model": IterNext(self, conc(k.get("values", True)) is False)})
 
     def m_put(self, ctx, r, a, k):
         self.s.puts.append((a[0], a[1], dict(k)))
@@ -77,6 +80,65 @@ class Cursor:
         self.s.deleted.append(self.p)
         self.p += 1            # (ghost indexing keeps the original positions: the cursor is on the next entry)
         return True
+
+
+class IterNext:
+    """cursor.iternext(): yields the entries from the cursor's position on, the cursor sitting ON the entry being yielded (so a
+    delete() inside the loop body deletes that entry)"""
+
+    def __init__(self, cursor, keys_only):
+        self.c, self.keys_only = cursor, keys_only
+
+    def iterate(self, ctx, r):
+        c = self.c
+        i = c.p if c._live() else len(c.s.K)
+        while i < len(c.s.K):
+            c.p = i
+            yield c.s.K[i] if self.keys_only else (c.s.K[i], c.s.V[i])
+            i += 1
+        c.p = len(c.s.K)
+
+
+class OSet:
+    """ordered_set.OrderedSet over byte values compared by (symbolic) equality: membership forks, so on every path the set holds
+    pairwise different values in insertion order"""
+
+    def __init__(self, ctx=None, items=()):
+        self.items = []
+        for x in items:
+            self._add(ctx, x)
+
+    def _has(self, ctx, item):
+        t = z(BI.as_text(ctx, item))
+        return z3.Or(*[z(BI.as_text(ctx, x)) == t for x in self.items]) if self.items else z3.BoolVal(False)
+
+    def _add(self, ctx, item):
+        if not self.items or not ctx.branch(self._has(ctx, item), "oset-already-holds"):
+            self.items.append(item)
+
+    def contains(self, ctx, r, item):
+        return self._has(ctx, item)
+
+    def truth(self, ctx, r):
+        return bool(self.items)
+
+    def length(self, ctx, r):
+        return len(self.items)
+
+    def m_add(self, ctx, r, a, k):
+        self._add(ctx, a[0])
+
+    def iterate(self, ctx, r):
+        return iter(list(self.items))
+
+    def binop(self, ctx, op, a, b):
+        import ast
+        ma, mb = ctx.st(a)["model"], ctx.st(b)["model"]
+        if isinstance(op, ast.Sub) and isinstance(ma, OSet) and isinstance(mb, OSet):
+            out = OSet()
+            out.items = [x for x in ma.items if not (mb.items and ctx.branch(mb._has(ctx, x), "oset-difference-drops"))]
+            return ctx.alloc("ext", init={"model": out})
+        raise Undecided("ordered set operation")
 
 
 class Txn:
@@ -93,6 +155,10 @@ class Txn:
 
     def m_cursor(self, ctx, r, a, k):
         return ctx.alloc("ext", init={"model": Cursor(self.s)})
+
+    def m_put(self, ctx, r, a, k):
+        self.s.puts.append((a[0], a[1], dict(k)))
+        return ctx.fresh("bool", "put-result")
 
 
 class Env:
@@ -117,22 +183,54 @@ def scan_contract(B, meth):
     B.prog.modular[DUROR + ".suffix"] = Stub(lambda c, a, k: SV(SUF(z(BI.as_text(c, a[0])), z(a[1] if len(a) > 1 else k.get("ion"), "int")), "bytes"))
     B.prog.modular[DUROR + ".unsuffix"] = Stub(lambda c, a, k: (SV(UKEY(z(BI.as_text(c, a[0]))), "bytes"), SV(UION(z(BI.as_text(c, a[0]))), "int")))
     B.prog.externals["builtins.bytes"] = lambda c, a, k: BI.as_text(c, a[0]) if a else b""
+    B.prog.externals["ordered_set.OrderedSet"] = lambda c, a, k: c.alloc("ext", init={"model": OSet(c, BI.concrete_iter(c, a[0], must=True) if a else ())})
+    B.prog.externals["ordered_set.ordered_set.OrderedSet"] = B.prog.externals["ordered_set.OrderedSet"]
     self = B.obj(DUROR, hint="duror", env=B.ext(env), MaxSuffix=(1 << 128) - 1)
     kw = dict(sdb=sdb, key=key, sep=sep)
     newvals = []
-    if meth == "addIoVal":
+    if meth in ("addIoVal", "addIoSetVal"):
         newvals = [B.bytes("newval")]
         kw["val"] = newvals[0]
-    elif meth == "putIoVals":
+    elif meth in ("putIoVals", "pinIoVals", "putIoSetVals", "pinIoSetVals"):
         newvals = [B.bytes("newval%d" % i) for i in range(B.choice(0, 1, 2, label="values-to-put"))]
         kw["vals"] = B.list(list(newvals))
+    elif meth == "remIoSetVal":
+        newvals = [B.bytes("val")]
+        kw["val"] = newvals[0]
+    rems = []
+    if meth in ("pinIoVals", "pinIoSetVals"):
+        # (remIoVals has its own contract above: here only that it is called first, once, for the same sub-database, key and separator)
+        B.virtual(self, "remIoVals", lambda c, a, k: rems.append((dict(k), len(store.puts), len(env.begun))) or c.fresh("bool", "removed"))
     r = B.call(self, qual=DUROR + "." + meth, **kw)
     B.no_other_exception()
     if not B.returned():
         return
+    def written_is(dup, first):
+        """the entries written are exactly the given values that are not repeats (dup[j] says whether value j is one), in order,
+        at consecutive ordinals from `first`: a case split over which values are repeats (the code forked on the same facts)"""
+        import itertools
+        cases = []
+        for combo in itertools.product([False, True], repeat=len(newvals)):
+            want = [v.t for v, c_ in zip(newvals, combo) if not c_]
+            if len(want) != len(store.puts):
+                continue
+            cases.append(z3.And(*[d_ == z3.BoolVal(c_) for d_, c_ in zip(dup, combo)],
+                                *[z3.And(z(BI.as_text(ctx, pk)) == SUF(key.t, first + jj), z(BI.as_text(ctx, pv)) == want[jj]) for jj, (pk, pv, _) in enumerate(store.puts)]))
+        return z3.Or(z3.BoolVal(False), *cases)
+
+    def repeats(held):
+        """value j repeats iff `held` (pairs (condition, value)) holds it or an earlier given value equals it"""
+        return [z3.Or(z3.BoolVal(False), *[z3.And(c_, w == v.t) for c_, w in held], *[w.t == v.t for w in newvals[:jj]]) for jj, v in enumerate(newvals)]
+    if meth in ("pinIoVals", "pinIoSetVals"):
+        B.prove("erases-the-keys-entries-first: remIoVals-once-for-the-same-sub-database-key-and-separator-before-any-write",
+                len(rems) == 1 and rems[0][0].get("sdb") is sdb and rems[0][0].get("key") is key and rems[0][0].get("sep") is sep and rems[0][1] == 0 and rems[0][2] == 0, top=True)
+        B.prove("then-writes-the-values-(set: without repeats)-in-order-at-ordinals-0-1-..",
+                written_is(repeats([]) if meth == "pinIoSetVals" else [z3.BoolVal(False)] * len(newvals), z3.IntVal(0)), top=True)
+        B.prove("one-write-transaction-on-the-given-sub-database", len(env.begun) == 1 and env.begun[0].get("db") is sdb and conc(env.begun[0].get("write")) is True and log == ["enter", "exit"], top=True)
+        return
     B.prove("one-transaction-on-the-given-sub-database-entered-and-left", len(env.begun) == 1 and env.begun[0].get("db") is sdb and log == ["enter", "exit"], top=True)
-    B.prove("write-transaction-iff-the-operation-changes-the-store", bool(env.begun and conc(env.begun[0].get("write")) is (meth in ("popIoVal", "remIoVals", "addIoVal", "putIoVals"))), top=True)
-    if meth not in ("addIoVal", "putIoVals"):
+    B.prove("write-transaction-iff-the-operation-changes-the-store", bool(env.begun and conc(env.begun[0].get("write")) is (meth in ("popIoVal", "remIoVals", "addIoVal", "putIoVals", "remIoSetVal", "addIoSetVal", "putIoSetVals"))), top=True)
+    if meth not in ("addIoVal", "putIoVals", "addIoSetVal", "putIoSetVals"):
         B.prove("nothing-written", not store.puts, top=True)
     B.prove("scan-starts-at-the-zeroth-ordinal-of-the-key", z(BI.as_text(ctx, store.set_range_arg)) == SUF(key.t, z3.IntVal(0)) if store.set_range_arg is not None else False, top=True)
     s = store.start if store.start is not None else n
@@ -184,10 +282,34 @@ def scan_contract(B, meth):
         for j, (pk, pv, pkw) in enumerate(store.puts[:len(newvals)]):
             B.prove("written-at-the-keys-own-next-ordinal-with-the-given-value-in-order#%d" % j,
                     z3.And(z(BI.as_text(ctx, pk)) == SUF(key.t, nxt + j), z(BI.as_text(ctx, pv)) == newvals[j].t), top=True)
+    elif meth in ("addIoSetVal", "putIoSetVals"):
+        nxt = z3.IntVal(0)
+        for i, acc_i in in_run:
+            nxt = z3.If(acc_i, UION(store.K[i].t) + 1, nxt)
+        B.prove("nothing-deleted", not store.deleted, top=True)
+        B.prove("written: exactly-the-values-the-keys-own-run-does-not-hold-yet-without-repeats-in-order-from-the-next-ordinal",
+                written_is(repeats([(acc_i, store.V[i].t) for i, acc_i in in_run]), nxt), top=True)
+        B.prove("never-overwrites", all(conc(kw_.get("overwrite")) is False for _, _, kw_ in store.puts), top=True)
+        if meth == "addIoSetVal" and not store.puts:
+            B.prove("false-when-the-value-is-already-there", conc(r) is False, top=True)
+    elif meth == "remIoSetVal":
+        d = store.deleted
+        val = newvals[0].t
+        B.prove("nothing-written-and-at-most-one-entry-deleted", not store.puts and len(d) <= 1, top=True)
+        # first position of the run holding the value
+        hit = [z3.And(acc_i, store.V[i].t == val) for i, acc_i in in_run]
+        if d:
+            j = d[0] - s
+            B.prove("the-deleted-entry-is-the-FIRST-entry-of-the-keys-own-run-holding-the-value",
+                    z3.And(hit[j], *[z3.Not(h) for h in hit[:j]]) if 0 <= j < len(hit) else False, top=True)
+            B.prove("returns-true-when-it-deleted", conc(r) is True, top=True)
+        else:
+            B.prove("nothing-deleted-only-when-the-keys-run-does-not-hold-the-value", z3.Not(z3.Or(*hit)) if hit else True, top=True)
+            B.prove("returns-false-when-nothing-was-deleted", conc(r) is False, top=True)
     B.prove("canary:never-finds-an-entry", s >= n)     # must FAIL on some path (vacuity guard); last
 
 
-for _m in ("getIoValFirst", "getIoVals", "popIoVal", "remIoVals", "addIoVal", "putIoVals"):
+for _m in ("getIoValFirst", "getIoVals", "popIoVal", "remIoVals", "addIoVal", "putIoVals", "pinIoVals", "remIoSetVal", "addIoSetVal", "putIoSetVals", "pinIoSetVals"):
     def _mk(m=_m):
         @contract(DUROR + "." + m, props=["C24"], name=DUROR + "." + m + "[bounded <=3 entries; symbolic io-keys, values and key]", z3_ms=3000)
         def _c(B):
